@@ -45,26 +45,35 @@ theorem sweepAux_diagSlots (H : Ham) (f : Option Op → List Bool → Nat → RS
     rw [sweepAux_cons]
     simp only
     obtain ⟨hst, hsl⟩ := hf.empty st n rs
-    have ih := sweepAux_diagSlots H f hf t (f none st n rs).state (f none st n rs).n (f none st n rs).rs
-    rw [hst] at ih
+    generalize f none st n rs = r at hst hsl ⊢
+    obtain ⟨slot, state, n', rs'⟩ := r
+    simp only at hst hsl ⊢
+    subst hst
+    have ih := sweepAux_diagSlots H f hf t state n' rs'
     rcases hsl with h | ⟨bd, hb, hw, h⟩
     · rw [h]; exact DiagSlots.skip ih
     · rw [h]; exact DiagSlots.insert bd hb hw ih
   | some op :: t, st, n, rs => by
     rw [sweepAux_cons]
     simp only
-    have ih := sweepAux_diagSlots H f hf t (f (some op) st n rs).state (f (some op) st n rs).n
-      (f (some op) st n rs).rs
     cases htag : op.tagDiag with
     | true =>
       obtain ⟨hst, hsl⟩ := hf.diag op st n rs htag
-      rw [hst] at ih
+      generalize f (some op) st n rs = r at hst hsl ⊢
+      obtain ⟨slot, state, n', rs'⟩ := r
+      simp only at hst hsl ⊢
+      subst hst
+      have ih := sweepAux_diagSlots H f hf t state n' rs'
       rcases hsl with h | h
       · rw [h]; exact DiagSlots.keep op htag ih
       · rw [h]; exact DiagSlots.remove op htag ih
     | false =>
       obtain ⟨hst, hsl⟩ := hf.offdiag op st n rs htag
-      rw [hst] at ih
+      generalize f (some op) st n rs = r at hst hsl ⊢
+      obtain ⟨slot, state, n', rs'⟩ := r
+      simp only at hst hsl ⊢
+      subst hst
+      have ih := sweepAux_diagSlots H f hf t (writeVars st op.vars op.outs) n' rs'
       rw [hsl]; exact DiagSlots.offdiag op htag ih
 
 theorem padSlots_eq_padTo (L : Nat) (s : Slots) : padSlots L s = padTo s L := rfl
@@ -115,7 +124,7 @@ theorem genRangeLoop_lt (range zone : Nat) (h : 0 < range) : ∀ (fuel : Nat) (s
     · exact h
     · split
       · have hv := next_lt s
-        rw [Nat.div_lt_iff_lt_mul (by simp [two64])]
+        rw [Nat.div_lt_iff_lt_mul (by simp [two64]), Nat.mul_comm range]
         exact Nat.mul_lt_mul_of_lt_of_le hv (Nat.le_refl _) h
       · exact genRangeLoop_lt range zone h fuel _
 
